@@ -47,7 +47,8 @@ RULE = ("random id-encoded datasets (2..64 samples; 1..4-d samples with dims 1..
         "'x class','class x','x','class' + forms with index/ctx items; plus dedicated p=1 cases (64 distinct classes, all 64 "
         "indices, distinct seeds) for the binomial clause and the first/last-partner census; 2-/3-sample p=1 datasets x 64 seeds per "
         "index; ~22% soft labels (LabelSmoothingWrapper below the mix wrapper / soft-vector leaf), ~20% ctx-coupled leaves with return_ctx; ~60% of the leaves serve non-contiguous tensors; value-class cases (equal infinities, "
-        "half/bfloat/float/double near the dtype limit with opposite signs); 2 child interpreters (other PYTHONHASHSEED) x 4 seeded configs. A case is distinct by its full spec; every case is non-trivial")
+        "half/bfloat/float/double near the dtype limit with opposite signs); 2 child interpreters (other PYTHONHASHSEED) x 4 seeded configs; "
+        "25 instance-history cases (seed attribute assigned after construction; worker_init_fn(rank 0/1/3) called) against a directly built twin. A case is distinct by its full spec; every case is non-trivial")
 ASSUMPTIONS = [
     "leaves return python int (or 0-d long tensor) labels and a fresh float32 tensor per load (the wrapper mixes in place), as the repository's datasets do",
     "datasets have >= 2 samples ('one other sample' is undefined for a single sample); samples of one dataset have equal ndim; "
@@ -73,10 +74,13 @@ ASSUMPTIONS = [
     "cross-interpreter clause: a few seeded configurations (incl. custom ctx_prefix) are recomputed in fresh interpreters with another "
     "PYTHONHASHSEED and compared (rel 1e-6) with this interpreter; a child that cannot be started, crashes, raises or times out is "
     "'not compared' (monitor stays 0 -> INCONCLUSIVE), never a violation",
+    "instance histories: the public `seed` attribute may be assigned after construction (the current wrapper reads it at call time) and "
+    "worker_init_fn(rank) - the hook a DataLoader worker calls - may have run; a seeded wrapper then returns what a twin built directly with "
+    "that seed returns (rel 1e-6), for every request form and index",
     "without a seed the request forms are judged separately (no agreement between separate requests is claimed)",
     "KDSubset *above* the mix wrapper is not driven: the ModeWrapper constructor refuses outer layers without the fused accessor",
 ]
-MONITORS = ["noncontiguous_mixed_results_checked", "value_inf_mixed_results_checked", "value_limit_mixed_results_checked", "cross_interpreter_results_compared", "small_dataset_indices_checked", "soft_label_results_checked", "ctx_coupled_results_checked", "joint_results_checked", "x_only_results_checked", "label_only_results_checked", "seeded_form_agreement_checked",
+MONITORS = ["reconfigured_seed_results_compared", "worker_hook_results_compared", "noncontiguous_mixed_results_checked", "value_inf_mixed_results_checked", "value_limit_mixed_results_checked", "cross_interpreter_results_compared", "small_dataset_indices_checked", "soft_label_results_checked", "ctx_coupled_results_checked", "joint_results_checked", "x_only_results_checked", "label_only_results_checked", "seeded_form_agreement_checked",
             "unified_shape_results_checked", "untouched_results_seen", "mixed_results_seen", "p1_draws"]
 
 # tolerances (see ASSUMPTIONS)
@@ -405,6 +409,7 @@ def gen_cases(run):
     _ASYNC = True                   # generated runs overlap the child interpreters with the other cases; a replay runs them synchronously
     n_small = 8 if run.quick() else 40
     n_values = 60 if run.quick() else 600
+    n_history = 25 if run.quick() else 250
     xproc = [_gen_xproc(run.rng, 1), _gen_xproc(run.rng, 2 + run.rng.randrange(10 ** 6))]
     for i in range(n):
         if xproc and i in (0, 5):
@@ -415,6 +420,8 @@ def gen_cases(run):
             yield _gen_small(run.rng)
         if i < n_values:
             yield _gen_values(run.rng)
+        if i < n_history:
+            yield _gen_history(run.rng)
         yield _gen_mix(run.rng)
     while xproc:
         yield xproc.pop(0)
@@ -721,6 +728,8 @@ def run_case(run, spec):
         return _run_values(run, spec)
     if spec["kind"] == "xproc":
         return _run_xproc(run, spec)
+    if spec["kind"] == "history":
+        return _run_history(run, spec)
     _run_mix(run, spec)
 
 
@@ -985,6 +994,11 @@ XPROC_MARK = "KDV11RESULT "
 def xproc_table(cfg):
     """{form: [per index: {"x": [...], "y": [...]} | {"refused": type} ]} of one seeded configuration - plain, no monitors;
     this is what the child interpreter runs (and the checking interpreter, for comparison)"""
+    return table_of(plain_stack(cfg)[0], cfg)
+
+
+def plain_stack(cfg):
+    """-> (top of the stack, the KDMixWrapper inside it)"""
     leaf = IdLeaf(cfg["shapes"], cfg["classes"], cfg["ncls"], cfg["label_kind"], smooth=cfg.get("smooth"), layout=cfg.get("layout"))
     ds = leaf
     if cfg["subset"] is not None:
@@ -993,9 +1007,13 @@ def xproc_table(cfg):
         ds = LabelSmoothingWrapper(ds, smoothing=cfg["smooth"])
     if cfg["tf_below"] is not None:
         ds = XTransformWrapper(ds, transform=TF[cfg["tf_below"]][0])
-    ds = KDMixWrapper(ds, **_mix_kwargs(cfg))
+    mix = ds = KDMixWrapper(ds, **_mix_kwargs(cfg))
     if cfg["tf_above"] is not None:
         ds = XTransformWrapper(ds, transform=TF[cfg["tf_above"]][0])
+    return ds, mix
+
+
+def table_of(ds, cfg):
     out = {}
     for form in cfg["forms"]:
         mw = ModeWrapper(ds, mode=form)
@@ -1006,6 +1024,62 @@ def xproc_table(cfg):
                          "y": None if y is None else y.detach().to(torch.float64).flatten().tolist()})
         out[form] = rows
     return out
+
+
+def _tables_differ(cfg, a, b):
+    for form, rows in a.items():
+        for i, ra, rb in zip(cfg["indices"], rows, b[form]):
+            if not (_close(ra["x"], rb["x"]) and _close(ra["y"], rb["y"])):
+                return form, i, ra, rb
+    return None
+
+
+def _run_history(run, spec):
+    """instance histories of a seeded wrapper: (a) built with another seed / unseeded, then the public `seed` attribute is assigned;
+    (b) worker_init_fn(rank=k) was called. Either way every request form must return, for every index, what a twin built directly
+    with that seed returns (the same partner, weight and label)."""
+    cfg = spec["config"]
+    desc = _describe(cfg)
+    ok, ref = call_real(run, lambda: xproc_table(cfg), crash_key="getitem-crash", what=f"{desc}: twin built directly with seed {cfg['seed']}")
+    if not ok:
+        return
+    n_cmp = sum(len(v) for v in ref.values())
+
+    def subject(kind, prepare, what):
+        def go():
+            ds, mix = plain_stack(dict(cfg, seed=spec["first_seed"]) if kind == "assign" else cfg)
+            prepare(ds, mix)
+            return table_of(ds, cfg)
+        ok, tab = call_real(run, go, crash_key="history-crash", what=f"{desc}: {what}")
+        if not ok:
+            return
+        run.count("reconfigured_seed_results_compared" if kind == "assign" else "worker_hook_results_compared", n_cmp)
+        bad = _tables_differ(cfg, ref, tab)
+        if bad is not None:
+            form, i, ra, rb = bad
+            key = "history:assigned-seed-not-honoured" if kind == "assign" else "history:worker-hook-changes-seeded-draw"
+            run.violation(key, f"{desc} mode={form!r} [{i}]: {what}; result differs from a wrapper built directly with seed {cfg['seed']}: "
+                               f"label {_fmt(rb['y'] or [])} vs {_fmt(ra['y'] or [])}, x[:4] {_fmt((rb['x'] or [])[:4])} vs {_fmt((ra['x'] or [])[:4])}")
+
+    run.cover("history", "assign", "from-unseeded" if spec["first_seed"] is None else "from-seed")
+    subject("assign", lambda ds, mix: setattr(mix, "seed", cfg["seed"]),
+            f"built with seed={spec['first_seed']!r}, then wrapper.seed = {cfg['seed']} was assigned")
+    for k in spec["ranks"]:
+        run.cover("history", "hook", k)
+        subject("hook", lambda ds, mix, k=k: ds.worker_init_fn(k), f"worker_init_fn(rank={k}) was called on the stack")
+    if spec["ranks"]:
+        ks = spec["ranks"]
+
+        def both(ds, mix):
+            ModeWrapper(ds, mode="x class").worker_init_fn(ks[-1])      # the way a DataLoader worker reaches the stack
+            mix.seed = cfg["seed"]
+        subject("hook", both, f"ModeWrapper(...).worker_init_fn(rank={ks[-1]}) was called, then wrapper.seed = {cfg['seed']} re-assigned")
+
+
+def _gen_history(rng):
+    c = _gen_xproc(rng, 0)["configs"][rng.randrange(4)]
+    first = rng.choice([None, None, c["seed"] + 1 + rng.randrange(50), rng.randrange(10 ** 6)])
+    return {"kind": "history", "config": c, "first_seed": first, "ranks": [0, 1, 3]}
 
 
 def _xproc_fail(run, msg):
